@@ -5,7 +5,7 @@ from vlib import Violation
 
 PID = "C14"
 TARGETS = ["Run.vo", "RunSpec.vo", "NonVacuous/C14.vo"]
-IMPORTS = "From VF Require Import Base Show Gen_Errors Gen_Esr ErrTable Run."
+IMPORTS = "From VF Require Import Base Show Gen_Errors Gen_Esr ErrTable Lexer Response Conv Tree Scripted Run."
 ALLOWED_AXIOMS = []
 PROFILES = ["debug"]
 RULE = ("library-raised errors: value faults (out-of-range literals for all ten integer types, over-long non-decimal literals, undefined "
@@ -41,6 +41,9 @@ def library_faults():
         out.append(("unit %s %s" % (q, hexs(b"1 FOO")), "value")); out.append(("unit %s %s" % (q, hexs(b"'x'")), "type"))
     for m in [b"CMD 1 2", b"CMD 'abc", b"CMD #", b"A::B", b"CMD 1,,2", b"CMD \x80", b"ABCDEFGHIJKLM", b"CMD 1ABCDEFGHIJKLMN", b"CMD #19", b"CMD (\""]:
         out.append(("lex h %s" % hexs(m), "syntax"))
+    for n in (13, 255, 256, 257, 260, 268, 269, 512, 520):          # over-long elements are syntax faults at every length
+        for m in (b"A " + b"A" * n, b"A 1" + b"V" * n, b"A 1 " + b"V" * n, b"A" * n, b"A " + b"A" * n + b";B", b"*" + b"C" * n):
+            out.append(("lex h %s" % hexs(m), "syntax"))
     out.append(("nv i32 %s M10,m-10" % hexs(b"11"), "value")); out.append(("nv u8 %s -" % hexs(b"UP"), "value"))
     for ty, bounds in (("f32", "M41200000,mc1200000"), ("f64", "M4024000000000000,mc024000000000000"), ("f32", "-"), ("qfreq", "M41200000")):
         for tok in (b"NAN", b"nan", b"INF", b"NINF", b"1e30", b"-1e30", b"DEF", b"DOWN"):
@@ -63,12 +66,17 @@ def corpus():
     return [f"errtab {lo} {lo + CHUNK - 1}" for lo in range(-32768, 32768, CHUNK)] + list(_FAULT.keys())
 
 
-def generate(rng, tier): return []
+def generate(rng, tier):
+    import stress
+    return stress.tree_stream(tier)            # compared with the model on the error each message ends with (its class bit follows)
 def harness_line(c): return c
 def case_of_line(l): return l
 
 
 def coq_term(c):
+    if c.startswith("tree "):
+        import treegen
+        return treegen.coq_term(c)
     if not c.startswith("errtab"): return '"SKIP"'          # library-raised errors: judged by their class only
     _, lo, hi = c.split(" ")
     return f"run_errtab {coq_Z(int(lo))} {coq_Z(int(hi))}"
@@ -78,7 +86,7 @@ def impl_oracle(c, r):
     import re
     if r is None: return "no result from harness"
     if r.startswith(("PANIC", "CRASH", "NOT-RUN", "HANG")): return "implementation panicked / died"
-    if c.startswith("errtab"): return None
+    if c.startswith(("errtab", "tree ")): return None
     fault = _FAULT.get(c)
     codes = [int(x) for x in re.findall(r"(?:^|[ ,=])[EL](-\d+)", r)]
     if not codes: return "a %s fault was not rejected: %s" % (fault, r[:80])
@@ -88,7 +96,9 @@ def impl_oracle(c, r):
     return None
 
 
-def obs(s): return s
+def obs(s):
+    if " hook=" in s: return " | ".join(m.split(" ")[0].split("c")[0].split("x")[0] for m in s.split(" | "))      # the error code each message ends with
+    return s
 def nontrivial(c, impl): return True
 
 
